@@ -84,12 +84,16 @@ pub fn main(args: &[std::ffi::OsString]) -> i32 {
         torrent_bootstrap::verif_shim::sync::sched::install_fs(seed);
     }
     std::panic::set_hook(Box::new(|info| { eprintln!("PANIC {}", info); }));
+    // process state a library call has no business changing: the working directory
+    let cwd_before = std::env::current_dir().ok();
     let result = catch_unwind(AssertUnwindSafe(|| torrent_bootstrap::start(options)));
+    let cwd_after = std::env::current_dir().ok();
     torrent_bootstrap::verif_shim::sync::sched::uninstall();
     let log = ctl::uninstall();
     for line in &log {
         println!("LOG {}", line);
     }
+    println!("CWD {}", if cwd_before == cwd_after { "same" } else { "changed" });
     match result {
         Ok(Ok(())) => println!("RESULT ok"),
         Ok(Err(_)) => println!("RESULT err"),
